@@ -176,3 +176,39 @@ VARIANTS += [
     ("C08-iso-z", "C08", DT, '        if self.tz and self.tz.name == "UTC":', '        if self.tz:', "NAMED.iso8601"),
     ("C08-from-format-locale", "C08", INIT, "parts = _formatter.parse(string, fmt, now(tz=tz), locale=locale)", "parts = _formatter.parse(string, fmt, now(tz=tz))", "FROMFORMAT.forward"),
 ]
+
+VARIANTS += [
+    ("C09-clean", "C09", None, "", "", None),
+    ("C09-year-366", "C09", DUR, "            days + years * 365 + months * 30,", "            days + years * 366 + months * 30,", "UNITS.new"),
+    ("C09-slot-swap", "C09", DUR, "            milliseconds,\n            minutes,\n            hours,\n            weeks,\n        )\n\n        # Intuitive", "            milliseconds,\n            hours,\n            minutes,\n            weeks,\n        )\n\n        # Intuitive", "UNITS.new"),
+    ("C09-total-month", "C09", DUR, "total = self.total_seconds() - (years * 365 + months * 30) * SECONDS_PER_DAY", "total = self.total_seconds() - (years * 365 + months * 31) * SECONDS_PER_DAY", "UNITS.new"),
+    ("C09-sign-le", "C09", DUR, "        if total < 0:\n            m = -1", "        if total <= 0:\n            m = -1", "DIVMOD.sign"),
+    ("C09-seconds-nosign", "C09", DUR, "self._seconds = abs(int(total)) % SECONDS_PER_DAY * m", "self._seconds = abs(int(total)) % SECONDS_PER_DAY", "DIVMOD.pair"),
+    ("C09-days-hour", "C09", DUR, "_days = abs(int(total)) // SECONDS_PER_DAY * m", "_days = abs(int(total)) // SECONDS_PER_HOUR * m", "DIVMOD.pair"),
+    ("C09-weeks-mod", "C09", DUR, "self._weeks = abs(_days) // 7 * m", "self._weeks = abs(_days) // 7", "DIVMOD.pair"),
+    ("C09-hours-radix", "C09", DUR, "self._h = (abs(seconds) // 3600 % 24) * self._sign(seconds)", "self._h = (abs(seconds) // 3600 % 12) * self._sign(seconds)", "RADIX.digit"),
+    ("C09-minutes-nosign", "C09", DUR, "self._i = (abs(seconds) // 60 % 60) * self._sign(seconds)", "self._i = (abs(seconds) // 60 % 60)", "RADIX.digit"),
+    ("C09-sign-fn", "C09", DUR, "        if value < 0:\n            return -1\n\n        return 1", "        if value <= 0:\n            return -1\n\n        return 1", "RADIX.sign"),
+    ("C09-months-abs", "C09", DUR, "        self._months = months\n        self._years = years", "        self._months = abs(months)\n        self._years = years", "DIVMOD.pair"),
+    ("C09-guard-removed", "C09", DUR, "        if not isinstance(years, int) or not isinstance(months, int):\n            raise ValueError(\"Float year and months are not supported\")\n\n        self = timedelta.__new__(\n            cls,\n            days + years", "        self = timedelta.__new__(\n            cls,\n            days + years", "GUARD.int"),
+    ("C09-abs-divmod", "C09", DUR, "self._weeks, self._remaining_days = divmod(days, 7)", "self._remaining_days, self._weeks = divmod(days, 7)", "DIVMOD.pair"),
+    ("C09-in-days-floor", "C09", DUR, "        return int(self.total_days())", "        return math.floor(self.total_days())", "TRUNC.in"),
+]
+
+VARIANTS += [
+    ("C10-clean", "C10", None, "", "", None),
+    ("C10-private-on-timedelta", "C10", DUR, "            return cast(int, usec // _to_microseconds(other))", "            return cast(int, usec // other._to_microseconds())", "ATTR-UNDER-GUARD"),
+    ("C10-helper-weights", "C10", DUR, "    return (delta.days * (24 * 3600) + delta.seconds) * 1000000 + delta.microseconds", "    return (delta.days * (24 * 3600) + delta.seconds) * 1000000", "UNITS.usec"),
+    ("C10-usec-weights", "C10", DUR, "return (self._days * (24 * 3600) + self._seconds) * 1000000 + self._microseconds", "return (self._days * (24 * 360) + self._seconds) * 1000000 + self._microseconds", "UNITS.usec"),
+    ("C10-mul-ratio", "C10", DUR, "return self.__class__(0, 0, _divide_and_round(usec * a, b))", "return self.__class__(0, 0, _divide_and_round(usec * b, a))", "RATIO"),
+    ("C10-truediv-ratio", "C10", DUR, "                _divide_and_round(b * usec, a),", "                _divide_and_round(a * usec, b),", "RATIO"),
+    ("C10-round-half", "C10", DUR, "    if greater_than_half or r == b and q % 2 == 1:", "    if greater_than_half or r == b:", "REFERENCE.divide_and_round"),
+    ("C10-mul-native-result", "C10", DUR, "            return self.__class__(\n                years=self._years * other,\n                months=self._months * other,\n                seconds=self._total * other,\n            )", "            return timedelta(seconds=self._total * other)", "DUNDER.result"),
+    ("C10-mul-drop-months", "C10", DUR, "                years=self._years * other,\n                months=self._months * other,\n", "                years=self._years * other,\n", "SCALE.int"),
+    ("C10-no-guard", "C10", DUR, "    def __mod__(self, other: timedelta) -> Self:\n        if isinstance(other, timedelta):\n", "    def __mod__(self, other: timedelta) -> Self:\n        if True:\n", "DUNDER"),
+    ("C10-fall-off", "C10", DUR, "        if not isinstance(other, (int, timedelta)):\n            return NotImplemented\n", "        if not isinstance(other, (int, float, timedelta)):\n            return NotImplemented\n", "DUNDER.returns"),
+    ("C10-radd-removed", "C10", DUR, "    __radd__ = __add__\n\n    def __sub__", "    def __sub__", "DUNDER.reflected"),
+    ("C10-add-minus", "C10", DUR, "return self.__class__(seconds=self.total_seconds() + other.total_seconds())", "return self.__class__(seconds=self.total_seconds() - other.total_seconds())", "ADDSUB"),
+    ("C10-interval-no-delegate", "C10", IV, "    def __mod__(self, other: timedelta) -> Duration:  # type: ignore[override]\n        return self.as_duration().__mod__(other)\n", "", "CTOR-LSP"),
+    ("C10-as-duration", "C10", IV, "        return Duration(seconds=self.total_seconds())", "        return Duration(seconds=self.in_seconds())", "INTERVAL.delegate"),
+]
